@@ -218,6 +218,11 @@ func checkC11(e *core.Env) {
 			hr.Header["Content-Type"] = []string{ctc.ct}
 		}
 		hr.Header.Set("X-Verif-Run", run.ID)
+		if r.Intn(4) == 0 {
+			// a body of undeclared length (chunked transfer encoding)
+			hr.ContentLength = -1
+			hr.TransferEncoding = []string{"chunked"}
+		}
 		rec := httptest.NewRecorder()
 		e.Note("%s %s ct=%q hdr=%s body=%s", method, path, ctc.ct, hdrClass, bodyClass)
 		pan := guard(func() { servers[i%2].ServeHTTP(rec, hr) })
